@@ -122,6 +122,13 @@ def special_forms():
         ("select_one l1", "s9", {"label": "S", "appearance": "minimal quick w2 horizontal-compact", "parameters": "randomize=true seed=3"}),
         ("range", "r9", {"label": "R", "parameters": "start=1 end=9 step=2", "appearance": "vertical no-ticks picker"})],
         choices={"l1": [{"name": "x", "label": "X"}, {"name": "y", "label": "Y"}]}), {}))
+    # names the converter generates (count helpers, table-list helpers, or_other companions) meeting names the author already uses
+    out.append(("generated-name-meets-authors-name", gen.simple_form([
+        ("integer", "n", {"label": "N"}), ("calculate", "member_count", {"calculation": "${n} + 1"}),
+        ("begin repeat", "member", {"label": "M", "repeat_count": "${n} * 2"}, [("text", "nm", {"label": "name"})])]), {}))
+    out.append(("or-other-companion-meets-authors-name", gen.simple_form([
+        ("select_one l1 or_other", "pick", {"label": "P"}), ("text", "pick_other", {"label": "mine"})],
+        choices={"l1": [{"name": "x", "label": "X"}, {"name": "y", "label": "Y"}]}), {}))
     for v in range(3):
         rows = [("text", "a", {"label": "A"}), ("text", "b", {"label": "B"})]
         for k in range(24):
@@ -405,6 +412,25 @@ def run_shard(ctx):
             os.unlink(path)
     finally:
         shutil.rmtree(pdir, ignore_errors=True)
+    # -- pass 4d: which reader recognised the previous input must not matter when the type is left open (str, bytes and stream inputs)
+    import io as _io2
+    md_commas = ("| survey |\n| | type | name | label | calculation |\n| | integer | a | A, B, C, D and E | |\n| | calculate | c | | if(${a} > 1, concat('x, y', ',', 'z'), 'p, q') |\n"
+                 "| settings |\n| | form_title | form_id |\n| | Commas, commas, commas | rm |\n")
+    csv_pipes = "survey,,,,\n,type,name,label,constraint\n,text,t,\"T | U | V\",\"regex(., 'a|b|c|d')\"\n"
+    alone = {"md": drive.call_convert(md_commas, file_type=".md"), "csv": drive.call_convert(csv_pipes, file_type=".csv")}
+    for first, then in (("csv", "md"), ("md", "csv"), ("csv", "md")):
+        texts_ = {"md": md_commas, "csv": csv_pipes}
+        for how in ("str", "bytes", "stream"):
+            drive.call_convert(texts_[first], file_type="." + first)  # the conversion before: its reader succeeds
+            data_ = texts_[then] if how == "str" else (texts_[then].encode() if how == "bytes" else _io2.BytesIO(texts_[then].encode()))
+            o_ = drive.call_convert(data_)
+            ctx.ctr("digest_comparisons")
+            ctx.ctr("reader_memory_cases")
+            ctx.case(sig=f"reader-memory|{first}|{then}|{how}|{hs}")
+            fd_ = first_diff(digests(alone[then]), digests(o_))
+            if fd_:
+                ctx.viol(f"history:type-detection-depends-on-previous-input:{then}-after-{first}:{fd_}", f"{then} text given as {how} without a type right after a {first} conversion: {o_.brief()[:160]}; "
+                         f"alone (or with the type named) it gives {alone[then].brief()[:80]}", {"klass": "reader-memory"})
     # -- pass 5: threads
     container_thread_pass(ctx, hs)
     thread_pass(ctx, batch, base, hs, inject=(ctx.tier == "thorough"))
